@@ -137,6 +137,8 @@ namespace rkcommon {
 
     inline bool Any::operator==(const Any &rhs) const
     {
+      if (!valid() || !rhs.valid())
+        return valid() == rhs.valid();
       return currentValue->isSame(rhs.currentValue.get());
     }
 
@@ -197,7 +199,8 @@ namespace rkcommon {
     {
       std::stringstream retval;
       retval << "Any : (currently holds value of type) --> "
-             << demangle(currentValue->valueTypeID().name());
+             << (valid() ? demangle(currentValue->valueTypeID().name())
+                         : std::string("<empty>"));
       return retval.str();
     }
 
